@@ -13,6 +13,7 @@ T: real MemoryIO / SlicedMemoryIO objects over a recording controller (a Machine
 This file contains no oracle: it drives rig, records what happened and encodes it.
 """
 import itertools
+import json
 import random
 import warnings
 
@@ -25,6 +26,8 @@ from rig.utils.contexts import ContextMixin
 from .. import tlc as tlcmod
 
 WIN = 32            # bytes of recorded memory
+BIGWIN = 320        # ... for the few long views
+READ_CAP = 4096     # the recording controller answers at most this many bytes
 INT_LIMIT = 2 ** 31 - 1
 
 
@@ -35,32 +38,44 @@ class RecordingController(MachineController):
     def __init__(self, origin, mem):
         ContextMixin.__init__(self, {"app_id": 66})
         self.origin = origin
-        self.mem = bytearray(mem)
+        self.initial = bytes(mem)
+        self.mems = {}                      # every chip has its own copy of the window
         self.log = []
         self.next_alloc = None
+        self.plan = None                    # {(x, y): address the allocator hands out on that chip}
 
-    def _byte(self, a):
-        i = a - self.origin
-        return self.mem[i] if 0 <= i < len(self.mem) else 0
+    def mem_at(self, x, y):
+        return self.mems.setdefault((x, y), bytearray(self.initial))
 
     def read(self, address, length_bytes, x, y, p=0):
-        data = bytes(bytearray(self._byte(address + i) for i in range(max(0, length_bytes))))
+        mem = self.mem_at(x, y)
+        # (an absurdly long read - only a view that failed to clip asks for one - is answered with its first
+        # READ_CAP bytes, so that the driver survives; the recorded length is the one asked for)
+        n = max(0, min(length_bytes, READ_CAP))
+        lo = address - self.origin
+        data = bytes(bytearray(mem[lo + i] if 0 <= lo + i < len(mem) else 0 for i in range(n)))
         self.log.append(["r", address - self.origin, length_bytes, list(bytearray(data)), x, y])
         return data
 
     def write(self, address, data, x, y, p=0):
         data = bytes(data)
+        mem = self.mem_at(x, y)
         self.log.append(["w", address - self.origin, len(data), list(bytearray(data)), x, y])
         for i, b in enumerate(bytearray(data)):
             j = address + i - self.origin
-            if 0 <= j < len(self.mem):
-                self.mem[j] = b
+            if 0 <= j < len(mem):
+                mem[j] = b
 
     def sdram_free(self, ptr, x, y):
         self.log.append(["f", ptr - self.origin, 0, [], x, y])
 
     def sdram_alloc(self, size, tag=0, x=None, y=None, app_id=None, clear=False):
+        if self.plan is not None:
+            return self.plan[(x, y)]
         return self.next_alloc
+
+    def close(self):
+        pass
 
 
 class StackController(MachineController):
@@ -78,14 +93,16 @@ class StackController(MachineController):
         self.net = SimNet(self.sim)
         self.net.install(scp_connection, machine_controller)
         MachineController.__init__(self, "sim", initial_context={"app_id": 66})
-        self.origin, self.chip, self.n = origin, (x, y), len(mem)
-        self.sim.chips[(x, y)].write(origin, bytes(mem))
+        self.origin, self.n = origin, len(mem)
+        for c in self.sim.chips.values():
+            c.write(origin, bytes(mem))
         self.log = []
         self.next_alloc = None
+        self.plan = None
+        self.installed = True
 
-    @property
-    def mem(self):
-        return bytearray(self.sim.chips[self.chip].read(self.origin, self.n))
+    def mem_at(self, x, y):
+        return bytearray(self.sim.chips[(x, y)].read(self.origin, self.n))
 
     def read(self, address, length_bytes, x, y, p=0):
         data = MachineController.read(self, address, length_bytes, x, y, p)
@@ -101,10 +118,14 @@ class StackController(MachineController):
         self.log.append(["f", ptr - self.origin, 0, [], x, y])
 
     def sdram_alloc(self, size, tag=0, x=None, y=None, app_id=None, clear=False):
+        if self.plan is not None:
+            return self.plan[(x, y)]
         return self.next_alloc
 
     def close(self):
-        self.net.uninstall()
+        if self.installed:
+            self.net.uninstall()
+            self.installed = False
 
 
 def opt(f):
@@ -121,7 +142,7 @@ def describe(op):
     name, vid, args = op
     v = "v%d" % vid
     if name == "slice":
-        return "v_new = %s[%s:%s]" % (v, "" if args[0] is None else args[0], "" if args[1] is None else args[1])
+        return "v_new = %s[%s]" % (v, ":".join("" if a is None else str(a) for a in args))
     if name == "seek":
         return "%s.seek(%s)" % (v, args[0] if args[1] is None else "%d, %d" % args)
     if name in ("address",):
@@ -133,14 +154,56 @@ def describe(op):
     return "%s.%s(%s)" % (v, name, ", ".join(repr(a) for a in args))
 
 
+def make_ghost(ctrl, ghost, x, y):
+    """an earlier allocation of ghost[0] bytes on chip (x, y) through the controller's public call, used as
+    ghost[1] says and freed; whatever it does is not judged (it is the past of the history that is)"""
+    try:
+        with warnings.catch_warnings():
+            warnings.simplefilter("ignore")
+            g = ctrl.sdram_alloc_as_filelike(ghost[0], x=x, y=y)
+            part = g[1:]
+            for step in ghost[1]:
+                if step == "read":
+                    g.read(2)
+                elif step == "seek":
+                    g.seek(3)
+                    part.seek(1)
+                elif step == "close":
+                    part.close()
+                    g.close()
+            g.free()
+    except Exception:
+        pass
+    ctrl.log = []
+
+
 class History(object):
     """One root view over a fresh recording controller; perform() runs one operation and records its event."""
 
-    def __init__(self, origin, mem, start, end, x=1, y=2, via="direct", stack=0):
-        self.ctrl = StackController(origin, mem, x, y, stack) if stack else RecordingController(origin, mem)
+    def __init__(self, origin, mem, start, end, x=1, y=2, via="direct", stack=0, ctrl=None, root=None, extra=None,
+                 ghost=None):
+        self.shared = ctrl is not None
+        if ctrl is None:
+            ctrl = StackController(origin, mem, x, y, stack) if stack else RecordingController(origin, mem)
+        self.ctrl = ctrl
         self.origin = origin
-        self.setup = dict(mem=list(bytearray(mem)), start=start, end=end, x=x, y=y, origin=origin, via=via)
-        if via == "direct":
+        self.chip = (x, y)
+        # (the origin travels as text: window origins above 2^31 do not fit TLC's integers, and the
+        # specification never reads it)
+        self.setup = dict(mem=list(bytearray(mem)), start=start, end=end, x=x, y=y, origin=hex(origin), via=via)
+        if extra:
+            self.setup.update(extra)
+        self.ev = []
+        self.ops = []
+        if ghost is not None:
+            # the caller's history: an earlier allocation at the same address of the same chip (the allocator
+            # hands a released block out again), used, sliced and freed before this one is made
+            self.setup["ghost"] = json.dumps(ghost)
+            self.ctrl.next_alloc = origin + start
+            make_ghost(self.ctrl, ghost, x, y)
+        if via == "group":
+            pass                             # the root was made by make_group
+        elif via == "direct":
             root = MemoryIO(self.ctrl, x, y, origin + start, origin + end)
         else:
             # the real utils.sdram_alloc_for_vertices and MachineController.sdram_alloc_as_filelike
@@ -148,9 +211,14 @@ class History(object):
             got = mc_utils.sdram_alloc_for_vertices(
                 self.ctrl, {"v": (x, y)}, {"v": {Cores: slice(3, 4), SDRAM: slice(200, 200 + (end - start))}})
             root = got["v"]
-        self.views = [root]
-        self.ev = []
-        self.ops = []
+        self.ctrl.log = []
+        if isinstance(root, SlicedMemoryIO):
+            self.views = [root]
+        else:
+            # the allocation call did not give this vertex a view: an event no rule of the specification explains
+            self.views = []
+            self.ev.append(["setup_failed", 0, [str(root)], ["raise", "setup"], [], 0, []])
+            self.ops.append("# no view: %s" % (root,))
 
     def rel(self, lst):
         return [a - self.origin for a in lst]
@@ -182,7 +250,7 @@ class History(object):
                     val = [r] if isinstance(r, int) else []
                 elif name == "slice":
                     jargs = [[] if a is None else [a] for a in args]
-                    new_view = v[slice(args[0], args[1])]
+                    new_view = v[slice(*args)]               # (start, stop) or (start, stop, 1)
                     val = None
                 elif name == "close":
                     jargs = list(args)
@@ -233,9 +301,10 @@ class History(object):
         return e
 
     def trace(self, label):
-        ev = self.ev + [["end", list(self.ctrl.mem)]]
+        ev = self.ev + [["end", list(self.ctrl.mem_at(*self.chip))]]
         if isinstance(self.ctrl, StackController):
-            self.ctrl.close()
+            if not self.shared:
+                self.ctrl.close()
             label += " (through the real controller, connection and simulated machine)"
         return dict(self.setup, ev=ev, label=label, ops=self.ops)
 
@@ -254,8 +323,8 @@ def fits(tr):
     return ok(tr)
 
 
-def run_ops(ops, origin, mem, start, end, label, via="direct", x=1, y=2, cut=False):
-    h = History(origin, mem, start, end, x=x, y=y, via=via)
+def run_ops(ops, origin, mem, start, end, label, via="direct", x=1, y=2, cut=False, ghost=None):
+    h = History(origin, mem, start, end, x=x, y=y, via=via, ghost=ghost)
     for op in ops:
         if op[1] > len(h.views):
             if cut:
@@ -343,62 +412,169 @@ def peek(v):
         return None, n
 
 
-def random_history(rng, clean, nops):
+FAR = (0x10000 - 8, 0x10000, 2 ** 20 + 3, 2 ** 30, 2 ** 31 - 2)
+WEIGHTS = [("seek", 25), ("read", 20), ("write", 20), ("slice", 12), ("tell", 4), ("address", 3), ("len", 3),
+           ("flush", 2), ("close", 3), ("free", 1)]
+
+
+def random_step(rng, h, clean):
+    """one random operation on one of the views of history h"""
+    names = [w[0] for w in WEIGHTS]
+    cum = [w[1] for w in WEIGHTS]
+    if not h.views:
+        return
+    vid = len(h.views) - rng.randrange(min(len(h.views), 3)) if rng.random() < 0.7 else rng.randint(1, len(h.views))
+    v = h.views[vid - 1]
+    name = rng.choices(names, cum)[0]
+    pos, n = peek(v)
+    if name == "free":
+        vid = 1
+    if clean and pos is not None and name == "write" and not (0 <= pos <= n):
+        name = "seek"
+    if name == "seek":
+        if clean and pos is not None:
+            t = rng.randint(0, n + 3)
+            wh = rng.choice((0, 0, 1, 1, 2))
+            if wh == 0:
+                args = (t, rng.choice((0, None)))
+            elif wh == 1:
+                args = (t - pos, 1)
+            else:
+                args = (0, 2)
+        else:
+            wh = rng.choice((0, 0, 0, 1, 1, 1, 2)) if rng.random() < 0.85 else 2
+            r = rng.random()
+            if r < 0.93:
+                off = rng.randint(-n - 3, n + 4)
+            elif r < 0.97:
+                off = rng.choice((-1000, 1000, -40, 40))
+            else:
+                off = rng.choice((-1, 1)) * rng.choice(FAR[:4])       # (a sum of two still fits 32 bits)
+            if wh == 2 and rng.random() < 0.5:
+                off = 0
+            args = (off, wh)
+    elif name == "read":
+        r = rng.random()
+        if r < 0.25:
+            args = ()
+        elif r < 0.32:
+            args = (rng.choice((-1, -7)),)
+        elif r < 0.36 and not clean:
+            args = (rng.choice(FAR),)                # far counts: only over the recording controller
+        else:
+            args = (rng.randint(0, n + 3),)
+    elif name == "write":
+        args = (bytes(bytearray(rng.randrange(256) for _ in range(rng.randint(0, n + 3)))),)
+    elif name == "slice":
+        def bound():
+            return None if rng.random() < 0.2 else rng.randint(-n - 3, n + 3)
+        args = (bound(), bound())
+        if rng.random() < 0.15:
+            args += (1,)                             # v[a:b:1] is the same contiguous slice
+    elif name == "close":
+        args = ("with",) if rng.random() < 0.3 else ()
+    else:
+        args = ()
+    h.perform((name, vid, args))
+
+
+def random_history(rng, clean, nops, big=False, force_stack=False):
     origin = rng.choice((0, 88, 0x60000000, 0x7FFF0000, 0xFFFF0000))
-    mem = bytes(bytearray(rng.randrange(256) for _ in range(WIN)))
+    win = BIGWIN if big else WIN
+    mem = bytes(bytearray(rng.randrange(256) for _ in range(win)))
     start = rng.randint(8, 16)
-    ln = rng.choice((0, 1, 2, 3, 4, 4, 5, 6, 8, 8))
+    ln = rng.choice((255, 256, 257, 260, 300)) if big else rng.choice((0, 1, 2, 3, 4, 4, 5, 6, 8, 8))
     via = "direct" if rng.random() < 0.7 else "alloc"
     end = start + ln
     if via == "direct" and rng.random() < 0.08:
         end = start - rng.randint(0, 5)          # "end_address is ignored": a zero-length view
     x, y = rng.randrange(4), rng.randrange(4)
-    stack = rng.choice((4, 4, 5)) if clean and rng.random() < 0.2 else 0
-    h = History(origin, mem, start, end, x=x, y=y, via=via, stack=stack)
-    weights = [("seek", 25), ("read", 20), ("write", 20), ("slice", 12), ("tell", 4), ("address", 3), ("len", 3),
-               ("flush", 2), ("close", 3), ("free", 1)]
-    names = [w[0] for w in weights]
-    cum = [w[1] for w in weights]
+    stack = rng.choice((4, 4, 5)) if clean and (rng.random() < 0.2 or force_stack) else 0
+    if big and stack:
+        stack = 64                               # (a 4-byte buffer would make hundreds of commands per read)
+    ghost = None
+    if rng.random() < 0.1:
+        ghost = [rng.choice((ln, ln + 4, 1, 8)), rng.sample(["read", "seek", "close"], rng.randint(0, 3))]
+    h = History(origin, mem, start, end, x=x, y=y, via=via, stack=stack, ghost=ghost)
     for _ in range(nops):
-        vid = len(h.views) - rng.randrange(min(len(h.views), 3)) if rng.random() < 0.7 else rng.randint(1, len(h.views))
-        v = h.views[vid - 1]
-        name = rng.choices(names, cum)[0]
-        pos, n = peek(v)
-        if name == "free":
-            vid = 1
-        if clean and pos is not None and name == "write" and not (0 <= pos <= n):
-            name = "seek"
-        if name == "seek":
-            if clean and pos is not None:
-                t = rng.randint(0, n + 3)
-                wh = rng.choice((0, 0, 1, 1, 2))
-                if wh == 0:
-                    args = (t, rng.choice((0, None)))
-                elif wh == 1:
-                    args = (t - pos, 1)
-                else:
-                    args = (0, 2)
-            else:
-                wh = rng.choice((0, 0, 0, 1, 1, 1, 2)) if rng.random() < 0.85 else 2
-                off = rng.randint(-n - 3, n + 4) if rng.random() < 0.95 else rng.choice((-1000, 1000, -40, 40))
-                if wh == 2 and rng.random() < 0.5:
-                    off = 0
-                args = (off, wh)
-        elif name == "read":
-            r = rng.random()
-            args = () if r < 0.25 else ((rng.choice((-1, -7)),) if r < 0.32 else (rng.randint(0, n + 3),))
-        elif name == "write":
-            args = (bytes(bytearray(rng.randrange(256) for _ in range(rng.randint(0, n + 3)))),)
-        elif name == "slice":
-            def bound():
-                return None if rng.random() < 0.2 else rng.randint(-n - 3, n + 3)
-            args = (bound(), bound())
-        elif name == "close":
-            args = ("with",) if rng.random() < 0.3 else ()
-        else:
-            args = ()
-        h.perform((name, vid, args))
+        random_step(rng, h, clean)
     return h
+
+
+ALT_SDRAM, ALT_CORES = "sdram_words", "app_cores"     # resource names other than rig's defaults
+
+
+def make_group(origin, mem, verts, opts, stack):
+    """One call of the real utils.sdram_alloc_for_vertices for several vertices on different chips of one
+    controller (verts: name, x, y, start, len, core; a len of -1 = a vertex that asks for no SDRAM).  Returns
+    one History per vertex with SDRAM, all sharing the controller; each chip has its own memory."""
+    ctrl = StackController(origin, mem, 0, 0, stack) if stack else RecordingController(origin, mem)
+    ctrl.plan = dict(((v["x"], v["y"]), origin + v["start"]) for v in verts)
+    alt = opts.get("alt")
+    sdram_key, cores_key = (ALT_SDRAM, ALT_CORES) if alt else (SDRAM, Cores)
+    placements, allocations = {}, {}
+    for v in verts:
+        placements[v["name"]] = (v["x"], v["y"])
+        a = {}
+        a[cores_key] = slice(v["core"], v["core"] + 1)
+        if v["len"] >= 0:
+            a[sdram_key] = slice(v["base"], v["base"] + v["len"])
+        if alt:
+            a[SDRAM] = slice(0, max(v["len"], 0) + 5)      # a decoy under the default name
+            a[Cores] = slice(0, 17)
+        allocations[v["name"]] = a
+    kw = {}
+    if opts.get("core_as_tag") in ("yes", "no"):
+        kw["core_as_tag"] = opts["core_as_tag"] == "yes"
+    if opts.get("clear"):
+        kw["clear"] = True
+    if alt:
+        kw["sdram_resource"], kw["cores_resource"] = ALT_SDRAM, ALT_CORES
+    ghosts = [v for v in verts if v.get("ghost")]
+    for v in ghosts:
+        make_ghost(ctrl, v["ghost"], v["x"], v["y"])
+    try:
+        got = mc_utils.sdram_alloc_for_vertices(ctrl, placements, allocations, **kw)
+        why = "no view for this vertex"
+    except Exception as ex:                          # judged: the histories carry an unexplained event
+        got, why = {}, "sdram_alloc_for_vertices raised %s" % type(ex).__name__
+    ctrl.log = []
+    hs = []
+    for i, v in enumerate(verts):
+        if v["len"] < 0:
+            continue
+        root = got.get(v["name"]) if isinstance(got, dict) else None
+        hs.append(History(origin, mem, v["start"], v["start"] + v["len"], x=v["x"], y=v["y"], via="group",
+                          ctrl=ctrl, root=root if root is not None else why,
+                          extra=dict(group=json.dumps(dict(verts=verts, opts=opts, stack=stack, index=i)))))
+    return ctrl, hs
+
+
+def random_group(rng, clean, nops):
+    """several allocations of one controller alive at once, their histories interleaved"""
+    origin = rng.choice((0, 88, 0x60000000, 0x7FFF0000, 0xFFFF0000))
+    mem = bytes(bytearray(rng.randrange(256) for _ in range(WIN)))
+    k = rng.choice((2, 2, 3, 4))
+    chips = rng.sample([(x, y) for x in range(4) for y in range(4)], k + 1)
+    same = rng.random() < 0.6                        # every chip's heap hands out the same first address
+    start0 = rng.randint(8, 16)
+    verts = []
+    for i in range(k):
+        ln = rng.choice((0, 1, 2, 3, 4, 5, 6, 7, 8))
+        v = dict(name="v%d" % i, x=chips[i][0], y=chips[i][1], start=start0 if same else rng.randint(8, 16),
+                 len=ln, core=rng.randint(1, 17), base=rng.choice((0, 200, 4096)), nocores=rng.random() < 0.5)
+        if rng.random() < 0.15:
+            v["ghost"] = [rng.choice((ln, ln + 4, 8)), rng.sample(["read", "seek", "close"], rng.randint(0, 3))]
+        verts.append(v)
+    if rng.random() < 0.5:
+        verts.insert(rng.randint(0, k), dict(name="idle", x=chips[k][0], y=chips[k][1], start=start0, len=-1,
+                                             core=rng.randint(1, 17), base=0))
+    opts = dict(core_as_tag=rng.choice(("default", "default", "yes", "no")), clear=rng.random() < 0.3, alt=rng.random() < 0.3)
+    stack = rng.choice((4, 5)) if clean and rng.random() < 0.15 else 0
+    ctrl, hs = make_group(origin, mem, verts, opts, stack)
+    for _ in range(nops):
+        random_step(rng, rng.choice(hs), clean)
+    return ctrl, hs
 
 
 # ------------------------------------------------------------------------------------------ behaviours from TLC
@@ -484,8 +660,22 @@ def replay(chk):
     import json
     with open(chk.replay_path) as fh:
         old = json.load(fh)["replay"]["trace"]
-    t = run_ops(ops_of(old["ev"]), old["origin"], bytes(bytearray(old["mem"])), old["start"], old["end"], "replay",
-                via=old["via"], x=old["x"], y=old["y"])
+    origin = int(old["origin"], 16) if isinstance(old["origin"], str) else old["origin"]
+    mem = bytes(bytearray(old["mem"]))
+    ops = [o for o in ops_of(old["ev"]) if o[0] != "setup_failed"]
+    if old["via"] == "group":
+        # the allocation call for the whole group is made again; the other vertices' views stay idle
+        g = json.loads(old["group"])
+        ctrl, hs = make_group(origin, mem, g["verts"], g["opts"], g["stack"])
+        h = [k for k in hs if (k.setup["x"], k.setup["y"]) == (old["x"], old["y"])][0]
+        for op in ops:
+            if op[1] <= len(h.views):
+                h.perform(op)
+        t = h.trace("replay")
+        ctrl.close()
+    else:
+        t = run_ops(ops, origin, mem, old["start"], old["end"], "replay",
+                    via=old["via"], x=old["x"], y=old["y"], ghost=json.loads(old["ghost"]) if "ghost" in old else None)
     chk.note_case(t["ops"])
     chk.sample(t)
     chk.rule = "replay of %s: the recorded operations run again on the real views" % chk.replay_path
@@ -549,6 +739,37 @@ def run(chk):
         chk.note_case((t["mem"], t["start"], t["end"], t["ops"]),
                       nontrivial=any(e[0] in ("read", "write") and e[4] for e in t["ev"]))
         judge()
+    # several allocations of one controller at once (one call of sdram_alloc_for_vertices), interleaved
+    ngroups = chk.pick(300, 3000)
+    for i in range(ngroups):
+        clean = rng.random() < 0.6
+        ctrl, hs = random_group(rng, clean, rng.randint(4, 30))
+        for h in hs:
+            t = h.trace("random-group-" + ("clean" if clean else "wild"))
+            if not fits(t):
+                chk.skip("an integer of the trace does not fit TLC's 32 bits")
+                continue
+            pending.append(t)
+            chk.count("histories sharing their controller with other live allocations")
+            if i == 0 and h is hs[0]:
+                chk.sample(t)
+            chk.note_case((t["mem"], t["start"], t["end"], t["x"], t["y"], t["group"], t["ops"]),
+                          nontrivial=any(e[0] in ("read", "write") and e[4] for e in t["ev"]))
+        ctrl.close()
+        judge()
+    # views longer than 255 bytes
+    nbig = chk.pick(30, 300)
+    for i in range(nbig):
+        clean = rng.random() < 0.6 or i % 6 == 0
+        h = random_history(rng, clean, rng.randint(3, 16), big=True, force_stack=i % 6 == 0)
+        t = h.trace("random-long-" + ("clean" if clean else "wild"))
+        if not fits(t):
+            chk.skip("an integer of the trace does not fit TLC's 32 bits")
+            continue
+        pending.append(t)
+        chk.count("histories on views of 255-300 bytes")
+        chk.note_case((t["mem"], t["start"], t["end"], t["ops"]),
+                      nontrivial=any(e[0] in ("read", "write") and e[4] for e in t["ev"]))
     judge(force=True)
     chk.rule = ("histories of seek (whence 0/1/2, any offset) / tell / read (any count, default) / write / slice (any "
                 "bounds, slices of slices) / close (also through a with block) / free / flush / address / len on a real "
@@ -556,7 +777,12 @@ def run(chk):
                 "(see small_scope_domain), then behaviours of FileViewDesign produced by TLC's simulator and replayed "
                 "operation by operation, then seeded random histories of 3-24 operations on views of length 0-8 at "
                 "several window origins (0 .. 0xFFFF0000), created directly (incl. end < start) or through "
-                "sdram_alloc_for_vertices; 60% of the random histories keep positions inside 0..len+3, write only "
+                "sdram_alloc_for_vertices (one history in ten after an earlier allocation at the same address was used "
+                "and freed; slices also written v[a:b:1]; in the wild histories 3% of the seeks / 4% of the read counts "
+                "are far: 65528 .. 2^31-2); then groups of 2-4 allocations made by ONE call of sdram_alloc_for_vertices "
+                "(different chips, equal or different addresses, optional vertex without SDRAM, core_as_tag / clear / "
+                "other resource names given or defaulted) with their 4-30 operations interleaved, each allocation's "
+                "history judged on its own chip's memory; then a few views of 255-300 bytes; 60% of the random histories keep positions inside 0..len+3, write only "
                 "from positions <= len and seek from the end only with offset 0; non-trivial = at least 2 operations "
                 "(small scope) / at least one transfer that reached the controller (random); distinct = distinct "
                 "(memory, view, operation sequence)")
